@@ -10,6 +10,8 @@ for d in sorted(glob.glob("/verif/seeded/*/")):
         print("no sweep log for", t); continue
     last = open(log).read().strip().splitlines()[-1]
     got = sorted(set(re.findall(r"(C\d\d)=1", last)))
+    if t not in idx and t.startswith("revert-"):
+        idx[t] = {"kind": "revert-of-fix", "subject": open(d + "subject.txt").read().strip()}
     if t not in idx:
         m = json.load(open(d + "meta.json"))
         idx[t] = {"kind": "independent-seed", "property": m.get("property"), "summary": m.get("summary"), "needs": m.get("needs")}
